@@ -64,6 +64,11 @@ func runC05(c *Ctx) {
 	if b, ok := constInt(pc.Args[1]); ok {
 		R.Ob("(*Conn).handleBdat/size base 10", c.P.InstrPos(bi.parse), b == 10, fmt.Sprintf("size parsed in base %d", b))
 	}
+	if b, ok := constInt(pc.Args[2]); ok {
+		R.Ob("(*Conn).handleBdat/size cannot wrap when converted to int64", c.P.InstrPos(bi.parse), b >= 1 && b <= 63, fmt.Sprintf("chunk size parsed with %d bits and converted to int64: a declared size >= 2^63 becomes a negative LimitReader bound, nothing is consumed and the payload is executed as commands", b))
+	} else {
+		R.Ob("(*Conn).handleBdat/size cannot wrap when converted to int64", c.P.InstrPos(bi.parse), false, "bit size of the chunk size parse is not a constant")
+	}
 	nCopies := 0
 	allInstrs(f, func(in ssa.Instruction) {
 		cc := callCommon(in)
@@ -194,6 +199,8 @@ func runC05(c *Ctx) {
 	}
 
 	ruleBdatAccounting(c, bi)
+	// end-of-file only after the LAST chunk, and only a well-formed LAST token ends the message
+	rulePipeClose(c)
 }
 
 func ruleBdatAccounting(c *Ctx, bi *bdatInfo) {
